@@ -6,6 +6,7 @@ import MysticVerif.Model.Dsl
 import MysticVerif.Model.Strategy
 import MysticVerif.Model.RefFmin
 import MysticVerif.Model.Powell
+import MysticVerif.Model.Brent
 import MysticVerif.Drv.SolverDrv
 
 namespace MysticVerif.DrvC08
@@ -160,8 +161,109 @@ def handlePowell (args : List Val) : String := Id.run do
     let s := o.st
     return s!"ok x={pFs s.x} fval={pF s.fval} iter={s.iter} fcalls={s.fcalls} warn={o.warnflag} direc={pFss s.direc} reqs={pReqs s.reqs} exts={pFss s.exts}"
 
+/-! ### Brent: the Float instantiation of Model/Brent.lean
+
+`bracket (cost (scalar e)) (box none|((lo..) (hi..))) (xa f) (xb f) (grow f) (maxiter n)`   (1-D: `func(a) = cost([a])`)
+`brent (mode direct|along) (cost ..) (box ..) (plus0 b) (p (..)) (xi (..)) (brack none|bad|(a b)|(a b c)) (tol f)
+       (maxiter n) (bmax n)`    (`direct`: `func(a) = cost([a])`; `along`: `_linesearch_powell`, `func(a) = cost(p + a*xi)`)
+`powellb (which ref|mystic) (cost ..) (x0 (..)) (direc ((..)..)) (xtol f) (ftol f) (maxiter n) (maxfun n) (imax n) (fuel n)`
+   a whole `fmin_powell` run from `x0` alone: the line searches are the modelled Brent, the cost is the DSL twin -/
+
+def brentK (grow : Float) : Brent.K Float :=
+  { abs := Float.abs, zero := 0.0, one := 1.0, two := 2.0, half := 0.5, gold := 1.618034, verysmall := 1e-21,
+    growLimit := grow, mintol := 1.0e-11, cg := 0.3819660 }
+
+def posInf : Float := 1.0 / 0.0
+
+/-- strict ranges as mystic's `wrap_bounds` applies them: outside `lo < x < hi` (any coordinate) the cost is `inf` -/
+def boxed (box : Option (List Float × List Float)) (f : List Float → Float) (x : List Float) : Float :=
+  match box with
+  | none => f x
+  | some (lo, hi) =>
+    if (List.zipWith (fun v l => decide (l < v)) x lo).all id && (List.zipWith (fun v h => decide (v < h)) x hi).all id
+    then f x else posInf
+
+def parseBox2 : Val → Option (Option (List Float × List Float))
+  | .sym "none" => some none
+  | .list [lo, hi] => do pure (some (← lo.asFloats?, ← hi.asFloats?))
+  | _ => none
+
+def pLog (l : Brent.Log Float) : String :=
+  "(" ++ " ".intercalate (l.map fun e => "(" ++ pF e.1 ++ " " ++ pF e.2 ++ ")") ++ ")"
+
+def errName : Brent.Err → String
+  | .tooMany => "tooMany" | .notBracketX => "notBracketX" | .notBracketF => "notBracketF" | .badBrack => "badBrack"
+  | .unbound => "unbound" | .fuel => "fuel"
+
+def handleBracket (args : List Val) : String := Id.run do
+  let some cost := (kw? args "cost").bind SolverDrv.parseCost | return "bad-op"
+  let some box := (kw? args "box").bind parseBox2 | return "bad-op"
+  let some xa := (kw? args "xa").bind Val.asFloat? | return "bad-op"
+  let some xb := (kw? args "xb").bind Val.asFloat? | return "bad-op"
+  let some grow := (kw? args "grow").bind Val.asFloat? | return "bad-op"
+  let some maxiter := (kw? args "maxiter").bind Val.asNat? | return "bad-op"
+  let f : Float → Float := fun a => boxed box cost.eval [a]
+  match Brent.bracket (brentK grow) f xa xb maxiter (maxiter + 2) with
+  | .ok b => return s!"ok exc=none xa={pF b.xa} xb={pF b.xb} xc={pF b.xc} fa={pF b.fa} fb={pF b.fb} fc={pF b.fc} n={b.funcalls} log={pLog b.log}"
+  | .error e => return s!"ok exc={errName e.1} log={pLog e.2}"
+
+def parseBrack : Val → Option (Brent.Brack Float)
+  | .sym "none" => some .none
+  | .sym "bad" => some .bad
+  | .list [a, b] => do pure (.two (← a.asFloat?) (← b.asFloat?))
+  | .list [a, b, c] => do pure (.three (← a.asFloat?) (← b.asFloat?) (← c.asFloat?))
+  | _ => none
+
+def handleBrent (args : List Val) : String := Id.run do
+  let some mode := (kw? args "mode").bind Val.asSym? | return "bad-op"
+  let some cost := (kw? args "cost").bind SolverDrv.parseCost | return "bad-op"
+  let some box := (kw? args "box").bind parseBox2 | return "bad-op"
+  let some plus0 := (kw? args "plus0").bind Val.asBool? | return "bad-op"
+  let some p := (kw? args "p").bind Val.asFloats? | return "bad-op"
+  let some xi := (kw? args "xi").bind Val.asFloats? | return "bad-op"
+  let some brack := (kw? args "brack").bind parseBrack | return "bad-op"
+  let some tol := (kw? args "tol").bind Val.asFloat? | return "bad-op"
+  let some maxiter := (kw? args "maxiter").bind Val.asNat? | return "bad-op"
+  let some bmax := (kw? args "bmax").bind Val.asNat? | return "bad-op"
+  let func : List Float → Float := fun x => if plus0 then boxed box cost.eval x + 0.0 else boxed box cost.eval x
+  let f : Float → Float := if mode == "direct" then fun a => func [a] else fun a => func (Brent.along p xi a)
+  match Brent.brent (brentK 110.0) f brack tol maxiter bmax (bmax + 2) with
+  | .ok o =>
+    return s!"ok exc=none xmin={pF o.xmin} fval={pF o.fval} iter={o.iter} funcalls={o.funcalls} nbracket={o.nbracket} log={pLog o.log} x={pFs (Solver.vadd p (Solver.vscale o.xmin xi))} xi={pFs (Solver.vscale o.xmin xi)}"
+  | .error e => return s!"ok exc={errName e.1} log={pLog e.2}"
+
+def handlePowellB (args : List Val) : String := Id.run do
+  let some which := (kw? args "which").bind Val.asSym? | return "bad-op"
+  let some cost := (kw? args "cost").bind SolverDrv.parseCost | return "bad-op"
+  let some x0 := (kw? args "x0").bind Val.asFloats? | return "bad-op"
+  let some direc := (kw? args "direc").bind asFloatss? | return "bad-op"
+  let some xtol := (kw? args "xtol").bind Val.asFloat? | return "bad-op"
+  let some ftol := (kw? args "ftol").bind Val.asFloat? | return "bad-op"
+  let some maxiter := (kw? args "maxiter").bind Val.asNat? | return "bad-op"
+  let some maxfun := (kw? args "maxfun").bind Val.asNat? | return "bad-op"
+  let some imax := (kw? args "imax").bind Val.asNat? | return "bad-op"
+  let some fuel := (kw? args "fuel").bind Val.asNat? | return "bad-op"
+  -- mystic evaluates `1*cost(x) + penalty(x)` with the default penalty `0.0` (tools.wrap_function / wrap_penalty)
+  let f : List Float → Float := if which == "ref" then cost.eval else fun x => cost.eval x + 0.0
+  let bad : List Float → List Float → Powell.LsOut Float Float := fun p xi => { fret := nan, x := p.map (fun _ => nan), xi := xi, ncalls := 0 }
+  let ls := Brent.lsOut (brentK 110.0) f (xtol * 100.0) imax 1000 1002 bad
+  let conv : Float → Float → Bool := fun fx fval =>
+    fx == fval || decide (2.0 * (fx - fval) ≤ ftol * (fx.abs + fval.abs) + 1e-20)
+  let c : Powell.Cfg Float Float := { ls := ls, f := f, conv := conv, two := 2.0, twoE := 2.0, zeroE := 0.0,
+                                      maxiter := maxiter, maxfun := maxfun }
+  let r := if which == "ref" then Powell.refPowell c fuel x0 direc else Powell.mysticPowell c fuel x0 direc
+  match r with
+  | none => return "err fuel"
+  | some o =>
+    let s := o.st
+    let lss := s.reqs.map fun q => ls q.1 q.2
+    return s!"ok x={pFs s.x} fval={pF s.fval} iter={s.iter} fcalls={s.fcalls} warn={o.warnflag} direc={pFss s.direc} reqs={pReqs s.reqs} exts={pFss s.exts} frets={pFs (lss.map (·.fret))} ncalls={pNs (lss.map (·.ncalls))}"
+
 def handle : Handler
   | .sym "powell" :: args => handlePowell args
+  | .sym "powellb" :: args => handlePowellB args
+  | .sym "bracket" :: args => handleBracket args
+  | .sym "brent" :: args => handleBrent args
   | .sym "fmin" :: args => handleFmin args
   | .sym "strat" :: args => handleStrat args
   | .sym "de" :: args => SolverDrv.handle (.sym "de" :: args)
